@@ -19,7 +19,8 @@ import typing
 from pathlib import Path
 
 ROOT = Path(__file__).resolve().parents[2]
-OUT = ROOT / "lean" / "OPM" / "Gen" / "Schemas.lean"
+from vp import core as _core  # the Lean project this run works in (private copy for scratch trees)
+OUT = _core.LEAN / "OPM" / "Gen" / "Schemas.lean"
 
 
 def lean_str(s: str) -> str:
